@@ -21,7 +21,7 @@ from contracts.c05 import unit_infix_body, unit_prefix_body, unit_number, unit_p
 from contracts.c13 import unit_bin  # noqa
 from contracts.c14 import unit_encode, unit_charliteral  # noqa
 from contracts.c15 import unit_rad50  # noqa
-from contracts.deferred_c import unit_awaiting, unit_construct, unit_wait, unit_promise  # noqa
+from contracts.deferred_c import unit_awaiting, unit_construct, unit_wait, unit_promise, unit_wait_chain  # noqa
 from contracts.compiler_c import unit_compile_block, unit_set_link_address, unit_dispatch  # noqa
 unit_include_c = compiler_c.unit_include
 from contracts.symbols_c import unit_define, unit_resolve, unit_resolve_register  # noqa
@@ -304,7 +304,7 @@ def unit_mutation(eng, shard, tier="quick"):
 def units(tier):
     us = [("mutation[%d]" % k, "unit_mutation", dict(shard=k, tier=tier)) for k in range(MUT_SHARDS)]
     us += [("random-programs", "unit_random_programs", dict(tier=tier)), ("self-reference", "unit_self_reference", {}), ("align", "unit_align_total", {}), ("bin", "unit_bin", {}),
-          ("awaiting", "unit_awaiting", {}), ("wait", "unit_wait", {}), ("promise", "unit_promise", {}), ("number", "unit_number", {}), ("encode", "unit_encode", {}),
+          ("awaiting", "unit_awaiting", {}), ("wait", "unit_wait", {}), ("wait-chain", "unit_wait_chain", {}), ("promise", "unit_promise", {}), ("number", "unit_number", {}), ("encode", "unit_encode", {}),
           ("charliteral", "unit_charliteral", {}), ("include", "unit_include", {}), ("insert_file", "unit_insert_file", {}), ("repeat", "unit_repeat", {}),
           ("resolve-register", "unit_resolve_register", {}), ("try_as_register", "unit_try_as_register", {}), ("try_accumulator", "unit_try_accumulator", {})]
     for sh in insn.CPU_SHAPES:
@@ -399,6 +399,11 @@ def replay(o, tree):
         return c05.replay(o, tree)
     if k == "anglechar":
         return tokens_c.replay_anglechar(o, tree)
+    if o.get("unit", "").startswith(".rad50["):
+        r15 = c15.replay(o, tree)
+        if r15 is not None:
+            r15["reproduced"] = r15["reproduced"] and any(x_ == "crash" for x_ in r15.get("observed", [])) or r15["reproduced"]
+        return r15
     if k == "mutation":
         bad = []
         for sig, (cnt, s_) in list(cfg.get("new", {}).items())[:12]:
